@@ -98,22 +98,25 @@ def parseRD (fs : List (List Char)) : Option Parsed :=
     | _, _, _, _, _, _, _, _ => none
   | _ => none
 
-/-- Decode one worklist line (EVOware script commands `B;Aspirate(…` are decoded in C13). -/
+/-- Decode the semicolon-separated fields of one line. -/
+def parseFields (fs : List (List Char)) : Option Parsed :=
+  match fs with
+  | ['A'] :: fs => parseAD true fs
+  | ['D'] :: fs => parseAD false fs
+  | ['R'] :: fs => parseRD fs
+  | [['W'], []] => some .washDiti
+  | [['W', 'D'], []] => some .decon
+  | [['F'], []] => some .flush
+  | [['B'], []] => some .brk
+  | [['S'], i] => (parseInt i).map .setDiti
+  | ['W' :: ds, []] => (parseNat ds).map .wash
+  | _ => none
+
+/-- Decode one worklist line (EVOware script commands `B;Aspirate(…` are decoded in C13).
+    A comment line carries free text after `C;`. -/
 def parseRec (cs : List Char) : Option Parsed :=
-  match cs with
-  | 'C' :: ';' :: text => some (.comment text)
-  | _ =>
-    match cs.splitOn ';' with
-    | ['A'] :: fs => parseAD true fs
-    | ['D'] :: fs => parseAD false fs
-    | ['R'] :: fs => parseRD fs
-    | [['W'], []] => some .washDiti
-    | [['W', 'D'], []] => some .decon
-    | [['F'], []] => some .flush
-    | [['B'], []] => some .brk
-    | [['S'], i] => (parseInt i).map .setDiti
-    | ['W' :: ds, []] => (parseNat ds).map .wash
-    | _ => none
+  if cs.take 2 = ['C', ';'] then some (.comment (cs.drop 2))
+  else parseFields (cs.splitOn ';')
 
 /-- What a record is expected to decode to: exactly its arguments, the volume in hundredths. -/
 def Rec.toParsed : Rec → Option Parsed
